@@ -47,7 +47,7 @@ type Msg struct {
 // NetStats counts what the network actually did.
 type NetStats struct {
 	Sent, Delivered, DroppedReq, DroppedReply, Duplicated, Redelivered int64
-	BlockedReq, BlockedReply, PeerDown, HeavyTail, Errors               int64
+	BlockedReq, BlockedReply, PeerDown, HeavyTail, Errors, LossyDropped int64
 	ByKind                                                             [3]int64
 }
 
@@ -59,6 +59,8 @@ type Net struct {
 
 	// blocked[from][to] directed cuts between node ids.
 	blocked map[string]map[string]bool
+	// lossy[from][to]: per-link loss probability (permille) of flaky links.
+	lossy map[string]map[string]int
 
 	// Mutable fault parameters (plan steps may change them).
 	DropPm, DupPm, ReplyLossPm, HeavyTailPm, RedeliverPm int
@@ -100,9 +102,36 @@ func (n *Net) block(from, to string) {
 	m[to] = true
 }
 
+func (n *Net) unblock(from, to string) { delete(n.blocked[from], to) }
+
 func (n *Net) isBlocked(from, to string) bool { return n.blocked[from][to] }
 
-func (n *Net) healAll() { n.blocked = map[string]map[string]bool{} }
+func (n *Net) healAll() {
+	n.blocked = map[string]map[string]bool{}
+	n.lossy = nil
+}
+
+func (n *Net) setLossy(a, b string, pm int) {
+	if n.lossy == nil {
+		n.lossy = map[string]map[string]int{}
+	}
+	for _, p := range [][2]string{{a, b}, {b, a}} {
+		if n.lossy[p[0]] == nil {
+			n.lossy[p[0]] = map[string]int{}
+		}
+		n.lossy[p[0]][p[1]] = pm
+	}
+}
+
+// linkLost draws the fate of one message on a flaky link.
+func (n *Net) linkLost(from, to string) bool {
+	pm := n.lossy[from][to]
+	if pm > 0 && n.rng.Intn(1000) < pm {
+		n.Stats.LossyDropped++
+		return true
+	}
+	return false
+}
 
 func (n *Net) prompt(a, b string) bool {
 	if n.PromptAll {
@@ -218,6 +247,8 @@ func (n *Net) roundTrip(m *Msg) {
 	case !n.prompt(from, dst.ID) && n.DropPm > 0 && n.rng.Intn(1000) < n.DropPm:
 		n.Stats.DroppedReq++
 		n.fail(m, "request lost")
+	case !n.prompt(from, dst.ID) && n.linkLost(from, dst.ID):
+		n.fail(m, "request lost on a flaky link")
 	default:
 		d := n.delay(from, dst.ID)
 		fifo := n.c.Cfg.FifoIS && m.Kind == KindIS
@@ -349,6 +380,8 @@ func (n *Net) handle(inc *Incarnation, m *Msg) {
 	case !n.prompt(from, to) && n.ReplyLossPm > 0 && n.rng.Intn(1000) < n.ReplyLossPm:
 		n.Stats.DroppedReply++
 		n.fail(m, "reply lost")
+	case !n.prompt(from, to) && n.linkLost(from, to):
+		n.fail(m, "reply lost on a flaky link")
 	default:
 		m.answered = true
 		// Snapshot the response now; it travels by value.
